@@ -4,6 +4,8 @@ package main
 import (
 	"fmt"
 	"os"
+	"os/exec"
+	"strings"
 
 	"verif/harness/eng"
 	"verif/harness/props"
@@ -49,6 +51,23 @@ func main() {
 		n := 2000
 		fmt.Sscan(a[2], &seed)
 		props.DebugCycles(a[1], seed, n)
+	case "witnesses":
+		subj := map[string]string{
+			"D1": "return the injector's chosen error variable", "D2": "universe identifiers", "D3": "dot-imported", "D4": "validate the first argument of wire.Struct",
+			"D6": "nil struct type in the wire.FieldsOf", "D7": "zero value of unsafe.Pointer", "D8": "match struct field names exactly", "D9": "named function types",
+			"D10": "copy type parameters", "D11": "multi-value var spec", "D12": "reject wire.InterfaceValue(new(I), nil)", "D13": "wire diff exits 2", "D14": "wire check reports the injector-level errors",
+			"D16": "reject providers and fields the injector's package cannot refer to", "D19": "ProviderSet variable not built by wire.NewSet", "D17": "type switch", "D21": "scope",
+		}
+		commits := map[string]string{}
+		for k, sub := range subj {
+			out, _ := exec.Command("git", "-C", eng.RepoDir(), "log", "--format=%h", "--fixed-strings", "--grep", sub).Output()
+			commits[k] = strings.TrimSpace(strings.Split(string(out), "\n")[0])
+		}
+		if err := props.WriteFindings(commits); err != nil {
+			fmt.Println(err)
+			os.Exit(2)
+		}
+		fmt.Println("known_findings.json written", commits)
 	case "render":
 		props.DebugRender(a[1], a[2])
 	case "list":
